@@ -265,11 +265,12 @@ theorem wrong_base58_prefix_rejected (regs : List (List UInt8)) (H : List UInt8 
   simp only [h1, h2, decide_false, Bool.and_self, Bool.false_eq_true, if_false]
   split <;> exact ⟨_, rfl⟩
 
-/-- Which shipped networks are separated from which (pairwise, per prefix class): mainnet, simnet and the
+/-- Which networks are separated from which (pairwise, per prefix class): mainnet, simnet, the harness's custom
+network and the
 test family {testnet3, testnet4, signet, regtest} have pairwise distinct P2PKH, P2SH, WIF and HD version bytes and
 HRPs; inside the test family only regtest's HRP (`bcrt`) differs — testnet3/testnet4/signet share every prefix. -/
 theorem shipped_prefixes_separated :
-    let fam := [Spec.mainNet, Spec.simNet, Spec.testNet3]
+    let fam := [Spec.mainNet, Spec.simNet, Spec.testNet3, Spec.customNet]
     (∀ a ∈ fam, ∀ b ∈ fam, a ≠ b →
       a.pkh ≠ b.pkh ∧ a.sh ≠ b.sh ∧ a.wif ≠ b.wif ∧ a.hrp ≠ b.hrp ∧ a.hdPriv ≠ b.hdPriv ∧ a.hdPub ≠ b.hdPub) ∧
     (∀ n ∈ Spec.nets, n.pkh ≠ n.sh) ∧
@@ -368,32 +369,32 @@ example : (assembleTree [.leaf 0 0xc0 [0x51], .leaf 1 0xc0 [0x52], .leaf 2 0xc0 
 
 theorem pin_names : Spec.nets.map (·.name) =
     [Generated.C16.net0_name, Generated.C16.net1_name, Generated.C16.net2_name, Generated.C16.net3_name,
-     Generated.C16.net4_name, Generated.C16.net5_name] := by decide
+     Generated.C16.net4_name, Generated.C16.net5_name, Generated.C16.net6_name] := by decide
 theorem pin_pkh : Spec.nets.map (fun n => (n.pkh.toNat : Int)) =
     [Generated.C16.net0_pkh, Generated.C16.net1_pkh, Generated.C16.net2_pkh, Generated.C16.net3_pkh,
-     Generated.C16.net4_pkh, Generated.C16.net5_pkh] := by decide
+     Generated.C16.net4_pkh, Generated.C16.net5_pkh, Generated.C16.net6_pkh] := by decide
 theorem pin_sh : Spec.nets.map (fun n => (n.sh.toNat : Int)) =
     [Generated.C16.net0_sh, Generated.C16.net1_sh, Generated.C16.net2_sh, Generated.C16.net3_sh,
-     Generated.C16.net4_sh, Generated.C16.net5_sh] := by decide
+     Generated.C16.net4_sh, Generated.C16.net5_sh, Generated.C16.net6_sh] := by decide
 theorem pin_wif : Spec.nets.map (fun n => (n.wif.toNat : Int)) =
     [Generated.C16.net0_wif, Generated.C16.net1_wif, Generated.C16.net2_wif, Generated.C16.net3_wif,
-     Generated.C16.net4_wif, Generated.C16.net5_wif] := by decide
+     Generated.C16.net4_wif, Generated.C16.net5_wif, Generated.C16.net6_wif] := by decide
 theorem pin_hrp : Spec.nets.map (fun n => n.hrp.map (fun c => (c.toNat : Int))) =
     [Generated.C16.net0_hrp, Generated.C16.net1_hrp, Generated.C16.net2_hrp, Generated.C16.net3_hrp,
-     Generated.C16.net4_hrp, Generated.C16.net5_hrp] := by decide
+     Generated.C16.net4_hrp, Generated.C16.net5_hrp, Generated.C16.net6_hrp] := by decide
 theorem pin_hdPriv : Spec.nets.map (fun n => n.hdPriv.map (fun c => (c.toNat : Int))) =
     [Generated.C16.net0_hdPriv, Generated.C16.net1_hdPriv, Generated.C16.net2_hdPriv, Generated.C16.net3_hdPriv,
-     Generated.C16.net4_hdPriv, Generated.C16.net5_hdPriv] := by decide
+     Generated.C16.net4_hdPriv, Generated.C16.net5_hdPriv, Generated.C16.net6_hdPriv] := by decide
 theorem pin_hdPub : Spec.nets.map (fun n => n.hdPub.map (fun c => (c.toNat : Int))) =
     [Generated.C16.net0_hdPub, Generated.C16.net1_hdPub, Generated.C16.net2_hdPub, Generated.C16.net3_hdPub,
-     Generated.C16.net4_hdPub, Generated.C16.net5_hdPub] := by decide
+     Generated.C16.net4_hdPub, Generated.C16.net5_hdPub, Generated.C16.net6_hdPub] := by decide
 /-- registered = every shipped network except signet; every shipped HRP is a known segwit prefix -/
 theorem pin_registered :
     [Generated.C16.net0_registered, Generated.C16.net1_registered, Generated.C16.net2_registered,
-     Generated.C16.net3_registered, Generated.C16.net4_registered, Generated.C16.net5_registered] =
+     Generated.C16.net3_registered, Generated.C16.net4_registered, Generated.C16.net5_registered, Generated.C16.net6_registered] =
       Spec.nets.map (fun n => Spec.registered.contains n) ∧
     [Generated.C16.net0_hrpKnown, Generated.C16.net1_hrpKnown, Generated.C16.net2_hrpKnown,
-     Generated.C16.net3_hrpKnown, Generated.C16.net4_hrpKnown, Generated.C16.net5_hrpKnown] =
+     Generated.C16.net3_hrpKnown, Generated.C16.net4_hrpKnown, Generated.C16.net5_hrpKnown, Generated.C16.net6_hrpKnown] =
       Spec.nets.map (fun n => Spec.registeredHrps.contains n.hrp) := by decide
 theorem pin_consts : Generated.C16.bech32Const = (BechVer.v0.const : Int) ∧
     Generated.C16.bech32mConst = (BechVer.vM.const : Int) ∧
